@@ -192,3 +192,11 @@ def run(ctx, chk):
                'constructor sets %s <- %s' % (drift_f, fmt(fields.get(drift_f)) if fields.get(drift_f) else None))
     chk.tables['fsm'] = {'%s' % values.get(s): {i: values.get(t) for i, t in rows.items()} for s, rows in trans.items()}
     chk.tables['dispatch'] = {n: sorted({tuple(i['applied']) for i in v}) for n, v in seen.items()}
+
+    # a publication is a call of the segment writer; that the call stores the record on every one of its paths -- no early
+    # return that silently keeps what an earlier daemon or an earlier outcome left in the segment -- is C02.S1's statement,
+    # and "every outcome results in a publication" depends on it
+    from . import C02
+    n_imp = common.import_obligations(ctx, chk, C02, 'C08', LEVEL, lambda o: o['rule'] == 'C02.S1' and o['key'] == 'write:has-data-write', 'C08.G')
+    if not getattr(chk, '_nested', False):
+        chk.floor('C08.G', 'paths of the segment write checked for storing the record (imported)', n_imp, 1)
